@@ -35,6 +35,10 @@ func NewOverlay(inner KeyValueTree) OverlayTree {
 
 // Implements KeyValueTree.
 func (o *treeOverlay) Insert(_ context.Context, key, value []byte) error {
+	if value == nil {
+		// As in Tree.Insert, a nil value is the empty value (nil marks a removed key below).
+		value = []byte{}
+	}
 	o.overlay.Set(string(key), value)
 	o.dirty[string(key)] = true
 	return nil
